@@ -64,6 +64,7 @@ def entries():
     add('addfield(const,index)', 1, lambda a, b: etl.addfield(a, 'z', 7, index=1), S)
     add('addfields', 1, lambda a, b: etl.addfields(a, [('y', 1), ('z', lambda r: r.n, 0)]), S)
     add('addcolumn', 1, lambda a, b: etl.addcolumn(a, 'z', [1, 2, 3]), S)
+    add('addcolumn(view column)', 2, lambda a, b: etl.addcolumn(a, 'z', etl.values(b, 'm')), S, need=lambda k: 2 * k)
     add('addrownumbers', 1, lambda a, b: etl.addrownumbers(a), S)
     add('addfieldusingcontext', 1, lambda a, b: etl.addfieldusingcontext(a, 'z', lambda p, c, n: (p.n if p else 0) + (n.n if n else 0)), S)
     add('rowslice', 1, lambda a, b: etl.rowslice(a, 1, 50, 2), S, need=lambda k: 2 * k)
@@ -132,6 +133,7 @@ def entries():
     add('unpack', 1, lambda a, b: etl.unpack(a, 't', ['t1', 't2']), S)
     add('unpackdict', 1, lambda a, b: etl.unpackdict(etl.convert(a, 't', lambda v: {'p': v[0], 'q': v[1]}), 't', keys=['p', 'q']), S)
     add('unpackdict(sample)', 1, lambda a, b: etl.unpackdict(etl.convert(a, 't', lambda v: {'p': v[0], 'q': v[1]}), 't', samplesize=2), S, 'sample', slack=4)
+    add('unpackdict(sample, no dicts)', 1, lambda a, b: etl.unpackdict(etl.convert(a, 't', lambda v: None), 't', samplesize=2), S, 'sample', slack=4)
     # --- reshape
     add('melt', 1, lambda a, b: etl.melt(a, 'k'), S, fan=3)
     add('melt(variables)', 1, lambda a, b: etl.melt(a, key=['k', 's'], variables=['n']), S)
